@@ -453,3 +453,25 @@ Proof.
   split; [do 4 eexists; reflexivity|]. split; [do 4 eexists; reflexivity|].
   vm_compute. reflexivity.
 Qed.
+
+(* ------------------------------------------------------------------ the dispatch does no arithmetic on the count *)
+(* what each backend is handed is nTasks itself (possibly converted), never a product / quotient formed in INDEX_T: the
+   TBB arguments, the argument of parallel_for_internal, the bound of the OpenMP / Debug loops; the only arithmetic of the
+   loops is ++taskIndex.  (A chunked dispatch n*c/k evaluated in INDEX_T is what Properties.chunk_bounds_wrap_refuted excludes.) *)
+Definition call_args_arith_free (f : func) : bool :=
+  forallb (fun st => match st with Exp (Call _ _ args) => forallb arith_free args | _ => false end) (f_body f).
+Definition loop_arith (f : func) : option (bool * list stmt) :=
+  match find_for (f_body f) with
+  | Some (init, c, inc, body) =>
+      Some (forallb (fun st => match st with Decl _ _ (Some e) => arith_free e | _ => false end) init && arith_free c
+            && forallb (fun st => match st with Exp e => arith_free e | _ => false end) body, inc)
+  | None => None
+  end.
+Lemma dispatch_arith_free_src :
+  call_args_arith_free src_impl_tbb_int = true /\ call_args_arith_free src_impl_tbb_size_t = true /\
+  call_args_arith_free src_impl_internal_int = true /\ call_args_arith_free src_impl_internal_size_t = true /\
+  loop_arith src_impl_omp_int = Some (true, [Asg "taskIndex" (Bin Add I32 (Var "taskIndex") (Lit 1))]) /\
+  loop_arith src_impl_omp_size_t = Some (true, [Asg "taskIndex" (Bin Add U64 (Var "taskIndex") (Lit 1))]) /\
+  loop_arith src_impl_debug_int = Some (true, [Asg "taskIndex" (Bin Add I32 (Var "taskIndex") (Lit 1))]) /\
+  loop_arith src_impl_debug_size_t = Some (true, [Asg "taskIndex" (Bin Add U64 (Var "taskIndex") (Lit 1))]).
+Proof. repeat (split; [vm_compute; reflexivity|]). vm_compute. reflexivity. Qed.
